@@ -178,9 +178,51 @@ fn probe_eq(func: &str) -> bool {
     false
 }
 
+/// Cal::new stores exactly the given holidays and week mask: every given date is a holiday (whatever its year, weekday or
+/// position in the list, duplicates allowed), no other date of 1970-2200 is, and the non-working week days are exactly
+/// the mask
+fn probe_cal_new(func: &str) -> bool {
+    let hol_sets: Vec<Vec<NaiveDateTime>> = vec![
+        vec![],
+        vec![ndt(1970, 1, 1), ndt(2200, 12, 31)],
+        vec![ndt(2200, 6, 3), ndt(2200, 1, 1), ndt(2199, 12, 31), ndt(1970, 1, 2), ndt(1999, 12, 31), ndt(2000, 2, 29)],
+        vec![ndt(2015, 9, 7), ndt(2015, 9, 7), ndt(2015, 9, 5), ndt(2100, 2, 28), ndt(2038, 1, 19), ndt(2038, 1, 20)],
+        vec![ndt(1969, 12, 31), ndt(2201, 1, 1), ndt(2024, 2, 29), ndt(1972, 2, 29)],
+    ];
+    let masks: Vec<Vec<u8>> = vec![vec![], vec![5, 6], vec![4, 5], vec![0], vec![6, 6, 2], vec![0, 1, 2, 3, 4, 5, 6]];
+    for hs in &hol_sets {
+        for m in &masks {
+            let c = match std::panic::catch_unwind(|| Cal::new(hs.clone(), m.clone())) {
+                Ok(c) => c,
+                Err(_) => { report("probe", func, &format!("Cal::new({:?}, {:?})", hs, m), "PANIC", "a calendar", false); return true; }
+            };
+            for h in hs {
+                if !c.is_holiday(h) {
+                    report("probe", func, &format!("Cal::new(holidays = {:?}, week_mask = {:?}).is_holiday({})", hs.iter().map(|d| d.date().to_string()).collect::<Vec<_>>(), m, h.date()), "false", "true (it is in the given list)", false);
+                    return true;
+                }
+            }
+            let mut d = ndt(1970, 1, 1);
+            let end = ndt(2200, 12, 31);
+            while d <= end {
+                use chrono::Datelike;
+                let exp_h = hs.contains(&d);
+                let exp_w = !m.contains(&(d.weekday().num_days_from_monday() as u8));
+                if c.is_holiday(&d) != exp_h || c.is_weekday(&d) != exp_w {
+                    report("probe", func, &format!("Cal::new(holidays = {:?}, week_mask = {:?}) at {}: (is_holiday, is_weekday)", hs.iter().map(|d| d.date().to_string()).collect::<Vec<_>>(), m, d.date()), &format!("({}, {})", c.is_holiday(&d), c.is_weekday(&d)), &format!("({}, {})", exp_h, exp_w), false);
+                    return true;
+                }
+                d = d + Days::new(1);
+            }
+        }
+    }
+    false
+}
+
 pub fn probe(func: &str) -> bool {
     match func {
-        "is_weekday" | "is_holiday" | "is_settlement" | "new" => probe_union(func) || probe_named(func),
+        "new" => probe_cal_new(func) || probe_union(func) || probe_named(func),
+        "is_weekday" | "is_holiday" | "is_settlement" => probe_union(func) || probe_named(func),
         "try_new" | "parse_cals" => probe_named(func),
         "eq" => probe_eq(func) || probe_union(func),
         _ => false,
